@@ -96,6 +96,8 @@ class Executor(Exec):
         cnt = g.get("count:" + short, z3.IntVal(0))
         g["count:" + short] = cnt + 1
         if isinstance(res, SPrim): g["last:" + short] = res.t
+        if isinstance(res, SPrim) and res.ty == "bool":       # how many calls returned True so far
+            g["counttrue:" + short] = g.get("counttrue:" + short, z3.IntVal(0)) + z3.If(res.t, 1, 0)
         return k(res, st.but(ghost=g))
 
     def apply(self, f, args, kw, st, k, node=None):
